@@ -22,9 +22,10 @@ Definition on_table (t:N) (f:table->table) (S:schema) : schema := kupdate t_name
 Definition with_cols (f:list col->list col) (tb:table) : table := mkTable (t_name tb) (f (t_cols tb)) (t_cons tb) (t_fks tb).
 Definition with_cons (f:list cons->list cons) (tb:table) : table := mkTable (t_name tb) (t_cols tb) (f (t_cons tb)) (t_fks tb).
 Definition with_fks (f:list fk->list fk) (tb:table) : table := mkTable (t_name tb) (t_cols tb) (t_cons tb) (f (t_fks tb)).
-Definition flip_null (x:col) : col := mkCol (c_name x) (c_ty x) (negb (c_null x)) (c_pk x) (c_default x).
-Definition set_ty (y:ty) (x:col) : col := mkCol (c_name x) y (c_null x) (c_pk x) (c_default x).
-Definition set_default (d:option dflt) (x:col) : col := mkCol (c_name x) (c_ty x) (c_null x) (c_pk x) d.
+(* the changed model states the new nullability explicitly *)
+Definition flip_null (x:col) : col := mkCol (c_name x) (c_ty x) (negb (c_null x)) (c_pk x) (c_default x) true.
+Definition set_ty (y:ty) (x:col) : col := mkCol (c_name x) y (c_null x) (c_pk x) (c_default x) (c_null_set x).
+Definition set_default (d:option dflt) (x:col) : col := mkCol (c_name x) (c_ty x) (c_null x) (c_pk x) d (c_null_set x).
 
 Definition apply_mut (m:mut) (A:schema) : schema :=
   match m with
@@ -54,7 +55,8 @@ Definition applicable (m:mut) (A:schema) : bool :=
                                                    | None => false end)
   | MChangeDefault t c d =>       (* the old and the new default differ after the documented normalisation *)
       in_table t A (fun tb => match kfind c_name c (t_cols tb) with
-                              | Some x => negb (opt_eqb (list_eqb N.eqb) (option_map (fun o => norm_default (d_txt o)) (c_default x))
+                              | Some x => negb (is_computed (c_default x)) && negb (is_computed d)     (* generated columns cannot be altered *)
+                                          && negb (opt_eqb (list_eqb N.eqb) (option_map (fun o => norm_default (d_txt o)) (c_default x))
                                                                          (option_map (fun o => norm_default (d_txt o)) d))
                               | None => false end)
   | MAddCons t k => in_table t A (fun tb => negb (memN (k_name k) (keys k_name (t_cons tb))))
